@@ -1,0 +1,88 @@
+//go:build verif
+
+// Contracts for the deductive verifier in /verif (govc). This file contains
+// comments only and is compiled only under the "verif" build tag.
+
+package arrays
+
+/*@
+// ---------------------------------------------------------------- C08
+// The memory layout is never written in a specification: cells are observed
+// through getUnchecked, whose meaning is extracted from its code.
+
+type Array2D(a) invariant a.width >= 0 && a.height >= 0 && len(a.slice) == a.width * a.height
+
+func New2D
+  property C08
+  requires width >= 0 && height >= 0
+  ensures[inv]   inv(result) && result.width == width && result.height == height
+  ensures[zero]  forall i, j :: 0 <= i && i < width && 0 <= j && j < height ==> result.getUnchecked(i, j) == zero(T)
+  ensures[fresh] fresh(result.slice)
+
+func New2DFilled
+  property C08
+  requires width >= 0 && height >= 0
+  ensures[inv]   inv(result) && result.width == width && result.height == height
+  ensures[cells] forall i, j :: 0 <= i && i < width && 0 <= j && j < height ==> result.getUnchecked(i, j) == value
+  ensures[fresh] fresh(result.slice)
+
+func New2DFromJagged
+  property C08
+  requires width >= 0 && height >= 0
+  ensures[inv]   inv(result) && result.width == width && result.height == height
+  ensures[cells] forall i, j :: 0 <= i && i < width && 0 <= j && j < height ==> result.getUnchecked(i, j) == ite(j < len(jagged) && i < len(jagged[j]), jagged[j][i], zero(E))
+  ensures[fresh] fresh(result.slice)
+  loop 0 invariant -1 <= rangeindex && inv(arr) && arr.width == width && arr.height == height && fresh(arr.slice)
+  loop 0 invariant forall i, j :: 0 <= i && i < width && 0 <= j && j < height ==> arr.getUnchecked(i, j) == ite(j <= rangeindex && j < len(jagged) && i < len(jagged[j]), jagged[j][i], zero(E))
+
+func Array2D.Get
+  property C08
+  requires inv(a)
+  panics_iff !(0 <= x && x < a.width && 0 <= y && y < a.height)
+  on_panic ensures unchanged()
+  ensures[cell] result == a.getUnchecked(x, y)
+
+func Array2D.getUnchecked
+  property C08
+  requires inv(a) && 0 <= x && x < a.width && 0 <= y && y < a.height
+  ensures[inrange] true
+
+func Array2D.Set
+  property C08
+  requires inv(a)
+  panics_iff !(0 <= x && x < a.width && 0 <= y && y < a.height)
+  on_panic ensures unchanged()
+  ensures[cells] forall i, j :: 0 <= i && i < a.width && 0 <= j && j < a.height ==> a.getUnchecked(i, j) == ite(i == x && j == y, value, old(a.getUnchecked(i, j)))
+  assigns elems(a.slice)
+
+func Array2D.Row
+  property C08
+  requires inv(a)
+  panics_iff !(0 <= y && y < a.height)
+  on_panic ensures unchanged()
+  ensures[len]    len(result) == a.width
+  ensures[window] forall i :: 0 <= i && i < a.width ==> window(result[i:i+1], cellof(a.getUnchecked(i, y)), 0, 1)
+
+func Array2D.RowSpan
+  property C08
+  requires inv(a)
+  panics_iff !(0 <= x1 && x1 < a.width && 0 <= x2 && x2 < a.width && 0 <= y && y < a.height)
+  on_panic ensures unchanged()
+  ensures[len]    x1 <= x2 ==> len(result) == x2 - x1 + 1
+  ensures[window] x1 <= x2 ==> forall i :: x1 <= i && i <= x2 ==> window(result[i-x1:i-x1+1], cellof(a.getUnchecked(i, y)), 0, 1)
+
+func Array2D.Fill
+  property C08
+  requires inv(a)
+  panics_iff !(0 <= x1 && x1 < a.width && 0 <= x2 && x2 < a.width && 0 <= y1 && y1 < a.height && 0 <= y2 && y2 < a.height)
+  on_panic ensures unchanged()
+  ensures[cells] forall i, j :: 0 <= i && i < a.width && 0 <= j && j < a.height ==> a.getUnchecked(i, j) == ite(min(x1, x2) <= i && i <= max(x1, x2) && min(y1, y2) <= j && j <= max(y1, y2), value, old(a.getUnchecked(i, j)))
+  assigns elems(a.slice)
+
+func Array2D.Clone
+  property C08
+  requires inv(a)
+  ensures[inv]   inv(result) && result.width == a.width && result.height == a.height
+  ensures[cells] forall i, j :: 0 <= i && i < a.width && 0 <= j && j < a.height ==> result.getUnchecked(i, j) == a.getUnchecked(i, j)
+  ensures[fresh] fresh(result.slice)
+@*/
